@@ -34,3 +34,12 @@ cls("ShardProgress", shard="ref:Shard", written_examples="int",
 cls("_DatasetFillerContext", _dataset_root_path="U", _dataset_structure="ref:DatasetStructure",
     _relative_path_from_split="U", _write_updates="bool", _examples_per_shard="int",
     _current_shards_progress="dict:ref:ShardProgress", _shards_lists="dict:ref:ShardsList")
+
+cls("Metadata", description="U", dataset_license="U", dataset_version="U", download_from="U",
+    custom_metadata="ref:DictObj", sedpack_version="U")
+cls("DatasetInfo", metadata="ref:Metadata", dataset_structure="ref:DatasetStructure",
+    splits="dict:ref:ShardListInfo")
+cls("DatasetBase", path="U", _dataset_info="ref:DatasetInfo")
+cls("DatasetIteration", base="DatasetBase")
+cls("DatasetWriting", base="DatasetBase")
+cls("Dataset", base="DatasetIteration")
